@@ -41,12 +41,15 @@ var typedOIDs = map[string]bool{oidPaging: true, oidBehera: true, oidVChuMust: t
 
 // Node is the RFC encoding of the control (RFC 4511 4.1.11, RFC 2696, Behera draft 10,
 // VChu draft): what a go-ldap client, or any conforming peer, puts on the wire.
-func (c Ctl) Node() *N {
+func (c Ctl) Node() *N { return c.NodeT(0xff) }
+
+// NodeT: as Node, with the octet used for TRUE.
+func (c Ctl) NodeT(tt byte) *N {
 	switch c.Kind {
 	case "str":
 		kids := []*N{Oct(c.OID)}
 		if c.Crit || c.ExplicitCrit {
-			kids = append(kids, Bool(c.Crit))
+			kids = append(kids, BoolT(tt, c.Crit))
 		}
 		if c.Value != "" {
 			kids = append(kids, Oct(c.Value))
@@ -55,7 +58,7 @@ func (c Ctl) Node() *N {
 	case "dsait":
 		kids := []*N{Oct(oidDsaIT)}
 		if c.Crit || c.ExplicitCrit {
-			kids = append(kids, Bool(c.Crit))
+			kids = append(kids, BoolT(tt, c.Crit))
 		}
 		return Seq(kids...)
 	case "paging":
@@ -146,6 +149,7 @@ type Req struct {
 	AddAttrs  []Att
 	Name      string
 	Ctls      []Ctl
+	TrueOctet byte // octet encoding TRUE (0 = 0xff)
 }
 
 // Node is the RFC 4511 encoding of the request, written from the RFC's ASN.1 and matching
@@ -164,7 +168,7 @@ func (r Req) Node() (*N, error) {
 		for i, a := range r.Attrs {
 			attrs[i] = Oct(a)
 		}
-		op = C(1, 3, Oct(r.DN), Int(10, r.Scope), Int(10, r.Deref), Int(2, r.Size), Int(2, r.Time), Bool(r.TypesOnly), fromBer(fp), Seq(attrs...))
+		op = C(1, 3, Oct(r.DN), Int(10, r.Scope), Int(10, r.Deref), Int(2, r.Size), Int(2, r.Time), BoolT(r.TrueOctet, r.TypesOnly), fromBer(fp), Seq(attrs...))
 	case "extended":
 		op = C(1, 23, P(2, 0, []byte(r.Name)))
 	case "modify":
@@ -198,7 +202,7 @@ func (r Req) Node() (*N, error) {
 	if len(r.Ctls) > 0 {
 		cs := make([]*N, len(r.Ctls))
 		for i, c := range r.Ctls {
-			cs[i] = c.Node()
+			cs[i] = c.NodeT(r.TrueOctet)
 		}
 		kids = append(kids, C(2, 0, cs...))
 	}
@@ -422,7 +426,7 @@ func genFilter(rng *rand.Rand, depth int) string {
 }
 
 func genReq(rng *rand.Rand) Req {
-	r := Req{ID: genID(rng)}
+	r := Req{ID: genID(rng), TrueOctet: []byte{0xff, 0xff, 0x01, 0x01, 0x80, byte(1 + rng.Intn(255))}[rng.Intn(6)]}
 	kinds := []string{"bind", "search", "extended", "modify", "add", "delete", "unbind"}
 	r.Kind = kinds[rng.Intn(len(kinds))]
 	r.DN = genStr(rng)
